@@ -1,4 +1,5 @@
 import libcst as cst
+from libcst import matchers
 
 from codemodder.codemods.utils_mixin import NameResolutionMixin
 from core_codemods.api import Metadata, Reference, ReviewGuidance, SimpleCodemod
@@ -34,6 +35,11 @@ class UseGenerator(SimpleCodemod, NameResolutionMixin):
             # but it's a less compelling use case
             case cst.Name("any" | "all" | "sum" | "min" | "max"):
                 if self.is_builtin_function(original_node):
+                    if original_node.args[0].star or matchers.findall(
+                        original_node.args[0].value, matchers.Await()
+                    ):
+                        # `max(*[...])` unpacks the list; a comprehension with `await` would become an async generator
+                        return updated_node
                     match original_node.args[0].value:
                         case cst.ListComp():
                             self.add_change(original_node, self.change_description)
